@@ -33,7 +33,6 @@ Exprs(n) ==   \* all expressions with exactly n leaves
                          {Or(x, y) : x \in Exprs(k), y \in Exprs(n - k)} : k \in 1..(n - 1)}
        IN bin \cup {Not(x) : x \in bin}
 
-AllExprs == UNION {Exprs(n) : n \in 1..MaxLeaves}
 
 RECURSIVE Eval(_, _)
 Eval(e, s) == CASE e.op = "tag" -> s[e.t]
@@ -59,10 +58,22 @@ Str(e) == CASE e.op = "tag" -> e.t
             [] e.op = "and" -> "(" \o Str(e.x) \o " && " \o Str(e.y) \o ")"
             [] e.op = "or"  -> "(" \o Str(e.x) \o " || " \o Str(e.y) \o ")"
 
-VARIABLE e
-Init == e \in AllExprs
-Next == UNCHANGED e
-Spec == Init /\ [][Next]_e
+RECURSIVE Leaves(_)
+Leaves(x) == CASE x.op = "tag" -> 1 [] x.op = "not" -> Leaves(x.x) [] OTHER -> Leaves(x.x) + Leaves(x.y)
+
+\* The expressions are enumerated as a state machine so that TLC's workers share the work: the initial
+\* states are the expressions with fewer than MaxLeaves leaves; one step combines such an expression (as the
+\* left operand) with another one into a binary expression of at most MaxLeaves leaves, negated or not.
+\* Every expression of up to MaxLeaves leaves is reached (each binary one exactly once, from its left operand).
+VARIABLES e, phase
+Smaller == UNION {Exprs(n) : n \in 1..(MaxLeaves - 1)}
+Init == phase = 1 /\ e \in (IF MaxLeaves = 1 THEN Exprs(1) ELSE Smaller)
+Next == /\ phase = 1 /\ phase' = 2
+        /\ \E y \in Smaller : \E neg \in BOOLEAN : \E op \in {"and", "or"} :
+             /\ Leaves(e) + Leaves(y) <= MaxLeaves
+             /\ LET bin == IF op = "and" THEN And(e, y) ELSE Or(e, y)
+                IN e' = IF neg THEN Not(bin) ELSE bin
+Spec == Init /\ [][Next]_<<e, phase>>
 
 \* C16, the build-tag half
 FlipCorrect == \A s \in Assignments : Eval(Flip(e), s) = Eval(e, FlipCff(s))
